@@ -41,7 +41,8 @@ extern int vs_exc;
 struct vs_opaque { char o; };
 
 /* ---- get area */
-struct vs_streambuf { char *base; size_t pos; size_t len; };
+/* put area: pbase = pb, pptr = pb + pn, epptr = pb + pl */
+struct vs_streambuf { char *base; size_t pos; size_t len; char *pb; size_t pn; size_t pl; };
 /* ghost: set whenever a length test comes out as "ran out" (C01 lemma L7) */
 extern bool g_hit_end;
 
@@ -68,6 +69,13 @@ static inline int  vs_sb_sbumpc(struct vs_streambuf *b)
     return (unsigned char)b->base[b->pos++];
 }
 static inline int  vs_traits_eof(void) { return -1; }
+static inline void  vs_sb_setp(struct vs_streambuf *b, char *beg, char *end) { b->pb = beg; b->pn = 0; b->pl = (size_t)VS_PTRDIFF(end, beg); }
+static inline char *vs_sb_pbase(const struct vs_streambuf *b) { return b->pb; }
+static inline char *vs_sb_pptr(const struct vs_streambuf *b)  { return b->pn ? b->pb + b->pn : b->pb; }
+static inline char *vs_sb_epptr(const struct vs_streambuf *b) { return b->pl ? b->pb + b->pl : b->pb; }
+static inline void  vs_sb_pbump(struct vs_streambuf *b, int n) { b->pn = (size_t)((long)b->pn + n); }
+static inline bool  vs_traits_eq_int_type(int a, int b) { return a == b; }
+static inline int   vs_traits_not_eof(int c) { return c == -1 ? 0 : c; }
 
 /* std::initializer_list<char> */
 struct vs_ilist_char { const char *b; size_t n; };
